@@ -29,6 +29,12 @@ FIXED = [
  ("C06", "c06:*:AESV3 DecryptionFailure", "AES-256 decryption must use the full 32-byte file key", "every string and stream of an AES-256 (R5/R6) document failed with DecryptionFailure"),
  ("C17", "c17:differs:scan.object", "scan() must take offsets relative to the header", "with a 1-byte prefix scan() returned objects whose stream data came from the wrong place; range ended early"),
  ("C01", "panic:pdf/src/file.rs:pdf::file::Storage::scan:called `Result::unwrap()`", "scan() reports a missing or out-of-range startxref", "scan() unwrapped the startxref lookup and the range read"),
+ ("C05", "panic:pdf/src/enc.rs:pdf::enc::run_length_decode:range end index N out of range for slice of length N", "RunLengthDecode reports truncated data as an error", "RunLength data [5,1,2], [200], [0] panicked (slice index)"),
+ ("C05", "c05:decode-differs:*+predPNG (predictor 10)", "/Predictor 10 is a PNG predictor too", "Predictor 10 left the PNG tag bytes in the output"),
+ ("C05", "c05:decode-differs:*+bpcN", "predictor row geometry must honour /BitsPerComponent", "PNG prediction with BitsPerComponent 1/2/4/16 unfiltered with the wrong stride"),
+ ("C05", "c05:decode-differs:LZWDecode+pred*", "LZWDecode applies /Predictor like FlateDecode", "LZW data with a predictor came back still predicted"),
+ ("C05", "c05:decode-differs:*+pred2", "implement the TIFF predictor", "Predictor 2 ignored: differences returned instead of samples"),
+ ("C14", "c14:predictor-geometry", "reject predictor parameters that are not positive or overflow", "negative/huge Colors, BitsPerComponent, Columns: overflow panics and row buffers of Columns bytes"),
 ]
 OPEN = [
 ]
